@@ -220,21 +220,21 @@ def expr(c):
     for op in c["ops"]:
         k = op[0]
         if k == "push":
-            ops.append(f"WPushSet {C.vlit(op[1])}")
+            ops.append(f"WwPushSet {C.vlit(op[1])}")
         elif k == "pushcheck":
-            ops.append(f"WPushCheck {K.lit_opt_v(op[1])}")
+            ops.append(f"WwPushCheck {K.lit_opt_v(op[1])}")
         elif k == "pull":
-            ops.append(f"WPullSet {C.qlit(op[1])}")
+            ops.append(f"WwPullSet {C.qlit(op[1])}")
         elif k == "pullcheck":
-            ops.append("WPullCheck")
+            ops.append("WwPullCheck")
         elif k == "calc":
-            ops.append("WCalc")
+            ops.append("WwCalc")
         elif k == "make":
-            ops.append("WMake")
+            ops.append("WwMake")
         elif k == "end":
-            ops.append("WEnd (20#1)")
+            ops.append("WwEnd (20#1)")
         else:
-            ops.append(f"WOverride {lit_params(op[1])} {C.qlit(op[1]['tcap'])}")
+            ops.append(f"WwOverride {lit_params(op[1])} {C.qlit(op[1]['tcap'])}")
     na, nn = len(c["adds"]), len(c["nons"])
     zero = "(mkV 0 [] [])"
     tank = f"(t_init {C.qlit(c['p']['tcap'])} {zero} [] (2#1))"
